@@ -1,16 +1,441 @@
-(** C08: basic facts about the contract automaton [spec]. *)
+(** C08: the clauses of the contract, proved on the automaton [spec] for every state /
+    every history, and soundness of the trace checker [chk_run] used as [prop]. *)
 From EG.lib Require Import Base.
-From EG.model Require Import CB.
+From EG.model Require Import CB CBCheck.
+From EG.proofs Require Import CBProofsWin CBProofsRef.
 From Coq Require Import ZifyBool.
 Open Scope Z_scope.
+
+(** ** one-step characterisation of the automaton *)
 
 Lemma closed_passes : forall pol now s,
   s_state s = Closed -> sp_acquire pol now s = (true, s).
 Proof. intros pol now s H. unfold sp_acquire. rewrite H. reflexivity. Qed.
 
+Lemma acq_open_wait pol now s :
+  s_state s = Open -> now - s_transit s < p_wait pol -> sp_acquire pol now s = (false, s).
+Proof.
+  intros H Hw. unfold sp_acquire. rewrite H.
+  destruct (Z.ltb_spec (now - s_transit s) (p_wait pol)); [reflexivity | lia].
+Qed.
+
+(** the state entered when the wait has elapsed; the entering call is the first trial *)
+Definition half_open_entry (pol : policy) (now : Z) (s : spec) : spec :=
+  {| s_state := HalfOpen; s_id := s_id s + 1; s_transit := now;
+     s_trials := if 0 <? p_perm pol then 1 else 0; s_kind := KCount (p_perm pol); s_log := [] |}.
+
+Lemma acq_open_elapsed pol now s :
+  s_state s = Open -> p_wait pol <= now - s_transit s ->
+  sp_acquire pol now s = ((0 <? p_perm pol), half_open_entry pol now s).
+Proof.
+  intros H Hw. unfold sp_acquire. rewrite H.
+  destruct (Z.ltb_spec (now - s_transit s) (p_wait pol)); [lia|].
+  unfold sp_transit. rewrite H. cbn [st_eqb].
+  unfold sp_half_acquire, half_open_entry. cbn [s_trials s_transit].
+  destruct (0 <? p_perm pol); [reflexivity|].
+  destruct (Z.ltb_spec 0 (p_maxwait pol)), (Z.ltb_spec (p_maxwait pol) (now - now)); cbn [andb]; try reflexivity; lia.
+Qed.
+
+Lemma acq_half pol now s : s_state s = HalfOpen -> sp_acquire pol now s = sp_half_acquire pol now s.
+Proof. intro H. unfold sp_acquire. now rewrite H. Qed.
+
+Lemma acq_half_admit pol now s :
+  s_state s = HalfOpen -> s_trials s < p_perm pol ->
+  sp_acquire pol now s = (true, sp_set_trials s (s_trials s + 1)).
+Proof.
+  intros H Ht. rewrite acq_half by exact H. unfold sp_half_acquire.
+  destruct (Z.ltb_spec (s_trials s) (p_perm pol)); [reflexivity | lia].
+Qed.
+
+Definition reopened (now : Z) (s : spec) : spec :=
+  {| s_state := Open; s_id := s_id s + 1; s_transit := now; s_trials := s_trials s;
+     s_kind := s_kind s; s_log := s_log s |}.
+
+Lemma acq_half_reopen pol now s :
+  s_state s = HalfOpen -> p_perm pol <= s_trials s ->
+  0 < p_maxwait pol -> p_maxwait pol < now - s_transit s ->
+  sp_acquire pol now s = (false, reopened now s).
+Proof.
+  intros H Ht H0 H1. rewrite acq_half by exact H. unfold sp_half_acquire.
+  destruct (Z.ltb_spec (s_trials s) (p_perm pol)); [lia|].
+  destruct (Z.ltb_spec 0 (p_maxwait pol)); [|lia].
+  destruct (Z.ltb_spec (p_maxwait pol) (now - s_transit s)); [|lia].
+  cbn [andb]. unfold sp_transit. rewrite H. reflexivity.
+Qed.
+
+Lemma acq_half_reject pol now s :
+  s_state s = HalfOpen -> p_perm pol <= s_trials s ->
+  (p_maxwait pol <= 0 \/ now - s_transit s <= p_maxwait pol) ->
+  sp_acquire pol now s = (false, s).
+Proof.
+  intros H Ht H0. rewrite acq_half by exact H. unfold sp_half_acquire.
+  destruct (Z.ltb_spec (s_trials s) (p_perm pol)); [lia|].
+  destruct (Z.ltb_spec 0 (p_maxwait pol)), (Z.ltb_spec (p_maxwait pol) (now - s_transit s));
+    cbn [andb]; try reflexivity; lia.
+Qed.
+
 Lemma stale_ignored_local : forall pol now id r s,
   id <> s_id s -> sp_record pol now id r s = (false, s).
 Proof.
   intros pol now id r s H. unfold sp_record.
-  destruct (id =? s_id s) eqn:E; [lia | reflexivity].
+  destruct (Z.eqb_spec id (s_id s)); [lia | reflexivity].
+Qed.
+
+Lemma rec_zero_size pol now r s :
+  kind_size (s_kind s) <= 0 -> sp_record pol now (s_id s) r s = (true, s).
+Proof.
+  intro H. unfold sp_record. rewrite Z.eqb_refl. cbn [negb].
+  destruct (Z.leb_spec (kind_size (s_kind s)) 0); [reflexivity | lia].
+Qed.
+
+Definition opened (now : Z) (s : spec) (log' : list (Z * res)) : spec :=
+  {| s_state := Open; s_id := s_id s + 1; s_transit := now; s_trials := s_trials s;
+     s_kind := s_kind s; s_log := log' |}.
+
+Definition recovered (pol : policy) (now : Z) (s : spec) : spec :=
+  {| s_state := Closed; s_id := s_id s + 1; s_transit := now; s_trials := s_trials s;
+     s_kind := pol_kind pol; s_log := [] |}.
+
+(** recording a result with the current id, window of positive size *)
+Lemma rec_current pol now r s :
+  0 < kind_size (s_kind s) ->
+  let log' := (sec_of now, r) :: s_log s in
+  let v := view (s_kind s) (sec_of now) log' in
+  sp_record pol now (s_id s) r s =
+  (false,
+   if Z.of_nat (List.length v) <? min_calls pol (s_state s) then sp_set_log s log'
+   else match s_state s with
+        | Open => sp_set_log s log'
+        | Closed => if trips pol v then opened now s log' else sp_set_log s log'
+        | HalfOpen => if trips pol v then opened now s log' else recovered pol now s
+        end).
+Proof.
+  intro H. cbv zeta. unfold sp_record. rewrite Z.eqb_refl. cbn [negb].
+  destruct (Z.leb_spec (kind_size (s_kind s)) 0); [lia|].
+  destruct (_ <? _); [reflexivity|].
+  unfold sp_transit, opened, recovered. cbn [s_state sp_set_log s_id s_trials s_kind s_log].
+  destruct (trips pol _), (s_state s); reflexivity.
+Qed.
+
+(** ** reachable states are well formed: the window kind is determined by the state *)
+Definition sp_wf (pol : policy) (s : spec) : Prop :=
+  match s_state s with
+  | Closed => s_kind s = pol_kind pol
+  | HalfOpen => s_kind s = KCount (p_perm pol)
+  | Open => True
+  end.
+
+Lemma sp_wf_transit pol now target s : sp_wf pol s -> sp_wf pol (sp_transit pol now target s).
+Proof.
+  intro H. unfold sp_transit. destruct (st_eqb target (s_state s)); [exact H|].
+  unfold sp_wf. cbn [s_state s_kind]. destruct target; auto.
+Qed.
+
+Lemma sp_wf_half_acquire pol now s : sp_wf pol s -> sp_wf pol (snd (sp_half_acquire pol now s)).
+Proof.
+  intro H. unfold sp_half_acquire. destruct (_ <? _); [exact H|].
+  destruct (_ && _); cbn [snd]; [now apply sp_wf_transit | exact H].
+Qed.
+
+Lemma sp_wf_step pol o s : sp_wf pol s -> sp_wf pol (snd (sp_step pol o s)).
+Proof.
+  intro H. destruct o as [now | now id err dur]; cbn [sp_step].
+  - destruct (sp_acquire pol now s) as [b s'] eqn:E. cbn [snd].
+    replace s' with (snd (sp_acquire pol now s)) by now rewrite E.
+    unfold sp_acquire. destruct (s_state s) eqn:Es; cbn [snd]; auto.
+    + now apply sp_wf_half_acquire.
+    + destruct (_ <? _); cbn [snd]; auto. apply sp_wf_half_acquire. now apply sp_wf_transit.
+  - destruct (sp_record pol now id (classify pol err dur) s) as [b s'] eqn:E. cbn [snd].
+    replace s' with (snd (sp_record pol now id (classify pol err dur) s)) by now rewrite E.
+    unfold sp_record. destruct (negb _); cbn [snd]; auto.
+    destruct (_ <=? 0); cbn [snd]; auto.
+    assert (W : sp_wf pol (sp_set_log s ((sec_of now, classify pol err dur) :: s_log s))) by exact H.
+    destruct (_ <? _); cbn [snd]; auto.
+    destruct (trips pol _); cbn [snd]; [now apply sp_wf_transit|].
+    destruct (s_state s) eqn:Es; cbn [snd]; auto. now apply sp_wf_transit.
+Qed.
+
+Lemma sp_wf_new pol t0 : sp_wf pol (sp_new pol t0).
+Proof. reflexivity. Qed.
+
+Lemma sp_wf_final pol : forall ops s, sp_wf pol s -> sp_wf pol (sp_final pol s ops).
+Proof. induction ops as [|o t IH]; intros s H; cbn [sp_final]; auto using sp_wf_step. Qed.
+
+(** ** clause: after a record in CLOSED, OPEN iff enough calls and a rate at/above threshold *)
+Lemma opens_at_threshold pol now r s :
+  sp_wf pol s -> s_state s = Closed -> 0 < p_size pol ->
+  let log' := (sec_of now, r) :: s_log s in
+  let v := view (pol_kind pol) (sec_of now) log' in
+  let n := Z.of_nat (List.length v) in
+  let s' := snd (sp_record pol now (s_id s) r s) in
+  fst (sp_record pol now (s_id s) r s) = false /\
+  (s_state s' = Open <->
+     p_min pol <= n /\ (p_fthr pol <= 100 * cnt is_fail v / n \/ p_sthr pol <= 100 * cnt is_slow v / n)) /\
+  (s_state s' = Open -> s_id s' = s_id s + 1 /\ s_transit s' = now) /\
+  (s_state s' <> Open -> s' = sp_set_log s log').
+Proof.
+  intros W Hc Hs. cbv zeta. unfold sp_wf in W. rewrite Hc in W.
+  rewrite rec_current by (rewrite W; unfold pol_kind; destruct (p_time pol); exact Hs).
+  rewrite W, Hc. cbn [fst snd min_calls].
+  set (v := view (pol_kind pol) (sec_of now) ((sec_of now, r) :: s_log s)).
+  destruct (Z.ltb_spec (Z.of_nat (List.length v)) (p_min pol)) as [Hlt | Hge].
+  - cbn [s_state sp_set_log]. rewrite Hc. repeat split; try congruence. intros [? _]. lia.
+  - unfold trips, srate.
+    destruct (Z.leb_spec (p_fthr pol) (100 * cnt is_fail v / Z.of_nat (List.length v))) as [F | F];
+    destruct (Z.leb_spec (p_sthr pol) (100 * cnt is_slow v / Z.of_nat (List.length v))) as [S | S];
+    cbn [orb opened s_state s_id s_transit sp_set_log]; try rewrite Hc;
+    repeat split; try congruence; try tauto; try lia.
+Qed.
+
+(** ** clause: OPEN short-circuits every call until the wait has elapsed *)
+Lemma rec_in_open pol now id r s :
+  s_state s = Open ->
+  let s' := snd (sp_record pol now id r s) in
+  s_state s' = Open /\ s_id s' = s_id s /\ s_transit s' = s_transit s.
+Proof.
+  intro H. cbv zeta. destruct (Z.eq_dec id (s_id s)) as [-> | N].
+  - destruct (Z.le_gt_cases (kind_size (s_kind s)) 0) as [K | K].
+    + rewrite rec_zero_size by exact K. auto.
+    + rewrite rec_current by lia. rewrite H. cbn [snd]. destruct (_ <? _); auto.
+  - rewrite stale_ignored_local by exact N. auto.
+Qed.
+
+Definition is_acq (o : op) : bool := match o with OAcq _ => true | _ => false end.
+
+Lemma open_short_circuits pol : forall ops s,
+  s_state s = Open -> (forall o, In o ops -> op_now o - s_transit s < p_wait pol) ->
+  Forall2 (fun o ob => snd (fst ob) = Open /\ snd ob = s_id s /\ (is_acq o = true -> fst (fst ob) = false))
+          ops (sp_run pol s ops) /\
+  s_state (sp_final pol s ops) = Open /\ s_id (sp_final pol s ops) = s_id s /\
+  s_transit (sp_final pol s ops) = s_transit s.
+Proof.
+  induction ops as [|o t IH]; intros s Ho Hw.
+  - cbn. auto.
+  - cbn [sp_run sp_final].
+    assert (Hw' : op_now o - s_transit s < p_wait pol) by (apply Hw; now left).
+    destruct o as [now | now id err dur]; cbn [sp_step op_now] in *.
+    + rewrite acq_open_wait by assumption. cbn [snd].
+      destruct (IH s Ho) as (F & G). { intros o Hin. apply Hw. now right. }
+      split; [|exact G]. constructor; [|exact F]. cbn [fst snd]. auto.
+    + destruct (rec_in_open pol now id (classify pol err dur) s Ho) as (R1 & R2 & R3).
+      destruct (sp_record pol now id (classify pol err dur) s) as [b s'] eqn:E. cbn [snd] in *.
+      destruct (IH s' R1) as (F & G1 & G2 & G3).
+      { intros o Hin. rewrite R3. apply Hw. now right. }
+      split; [|rewrite G2, G3; auto].
+      constructor; [cbn [fst snd is_acq]; intuition congruence|].
+      rewrite R2 in F. exact F.
+Qed.
+
+(** ** clause: in a half-open epoch exactly the first [permitted] acquisitions are admitted *)
+Fixpoint epoch_admits (pol : policy) (id : Z) (s : spec) (ops : list op) : list bool :=
+  match ops with
+  | [] => []
+  | o :: t =>
+      if s_id s =? id then
+        let '(ob, s') := sp_step pol o s in
+        match o with
+        | OAcq _ => fst (fst ob) :: epoch_admits pol id s' t
+        | _ => epoch_admits pol id s' t
+        end
+      else []
+  end.
+
+Lemma epoch_admits_over pol id s ops : s_id s <> id -> epoch_admits pol id s ops = [].
+Proof. intro H. destruct ops; cbn [epoch_admits]; [reflexivity|]. destruct (Z.eqb_spec (s_id s) id); [lia | reflexivity]. Qed.
+
+Lemma rec_in_half pol now id r s :
+  s_state s = HalfOpen ->
+  let s' := snd (sp_record pol now id r s) in
+  (s_state s' = HalfOpen /\ s_id s' = s_id s /\ s_trials s' = s_trials s) \/ s_id s' = s_id s + 1.
+Proof.
+  intro H. cbv zeta. destruct (Z.eq_dec id (s_id s)) as [-> | N].
+  - destruct (Z.le_gt_cases (kind_size (s_kind s)) 0) as [K | K].
+    + rewrite rec_zero_size by exact K. auto.
+    + rewrite rec_current by lia. rewrite H. cbn [snd]. destruct (_ <? _); [left; auto|].
+      destruct (trips pol _); right; reflexivity.
+  - rewrite stale_ignored_local by exact N. auto.
+Qed.
+
+Lemma half_open_admits pol : forall ops s i b,
+  s_state s = HalfOpen ->
+  nth_error (epoch_admits pol (s_id s) s ops) i = Some b ->
+  b = (s_trials s + Z.of_nat i <? p_perm pol).
+Proof.
+  induction ops as [|o t IH]; intros s i b Hs Hn.
+  - destruct i; discriminate.
+  - cbn [epoch_admits] in Hn. rewrite Z.eqb_refl in Hn.
+    destruct o as [now | now id err dur]; cbn [sp_step] in Hn.
+    + destruct (Z.lt_ge_cases (s_trials s) (p_perm pol)) as [Hlt | Hge].
+      * rewrite acq_half_admit in Hn by assumption. cbn [fst] in Hn.
+        destruct i as [|i]; cbn [nth_error] in Hn.
+        -- injection Hn as <-. lia.
+        -- apply (IH (sp_set_trials s (s_trials s + 1))) in Hn; [|exact Hs].
+           cbn [s_trials sp_set_trials] in Hn. subst b. lia.
+      * destruct (Z.lt_ge_cases 0 (p_maxwait pol)) as [M0 | M0];
+        [destruct (Z.lt_ge_cases (p_maxwait pol) (now - s_transit s)) as [M1 | M1]|].
+        -- rewrite acq_half_reopen in Hn by assumption. cbn [fst] in Hn.
+           rewrite epoch_admits_over in Hn by (cbn; lia).
+           destruct i as [|[|i]]; cbn [nth_error] in Hn; try discriminate. injection Hn as <-. lia.
+        -- rewrite acq_half_reject in Hn by (auto; lia). cbn [fst] in Hn.
+           destruct i as [|i]; cbn [nth_error] in Hn; [injection Hn as <-; lia|].
+           apply (IH s) in Hn; [|exact Hs]. subst b. lia.
+        -- rewrite acq_half_reject in Hn by (auto; lia). cbn [fst] in Hn.
+           destruct i as [|i]; cbn [nth_error] in Hn; [injection Hn as <-; lia|].
+           apply (IH s) in Hn; [|exact Hs]. subst b. lia.
+    + pose proof (rec_in_half pol now id (classify pol err dur) s Hs) as R.
+      destruct (sp_record pol now id (classify pol err dur) s) as [f s'] eqn:E. cbn [snd] in R.
+      destruct R as [(R1 & R2 & R3) | R].
+      * rewrite <- R2 in Hn. apply (IH s') in Hn; [|exact R1]. rewrite R3 in Hn. exact Hn.
+      * rewrite epoch_admits_over in Hn by lia. destruct i; discriminate.
+Qed.
+
+(** ** clause: the trials' recorded results close the breaker or reopen it *)
+Lemma trials_decide pol now r s :
+  sp_wf pol s -> s_state s = HalfOpen -> 0 < p_perm pol ->
+  let log' := (sec_of now, r) :: s_log s in
+  let v := view (KCount (p_perm pol)) (sec_of now) log' in
+  let n := Z.of_nat (List.length v) in
+  let tripped := p_fthr pol <= 100 * cnt is_fail v / n \/ p_sthr pol <= 100 * cnt is_slow v / n in
+  let s' := snd (sp_record pol now (s_id s) r s) in
+  fst (sp_record pol now (s_id s) r s) = false /\
+  (n < Z.min (p_min pol) (p_perm pol) -> s' = sp_set_log s log') /\
+  (Z.min (p_min pol) (p_perm pol) <= n -> tripped -> s' = opened now s log') /\
+  (Z.min (p_min pol) (p_perm pol) <= n -> ~ tripped -> s' = recovered pol now s).
+Proof.
+  intros W Hh Hp. cbv zeta. unfold sp_wf in W. rewrite Hh in W.
+  rewrite rec_current by (rewrite W; exact Hp).
+  rewrite W, Hh. cbn [fst snd min_calls].
+  set (v := view (KCount (p_perm pol)) (sec_of now) ((sec_of now, r) :: s_log s)).
+  split; [reflexivity|].
+  destruct (Z.ltb_spec (Z.of_nat (List.length v)) (Z.min (p_min pol) (p_perm pol))) as [Hlt | Hge].
+  - repeat split; auto; lia.
+  - unfold trips, srate.
+    destruct (Z.leb_spec (p_fthr pol) (100 * cnt is_fail v / Z.of_nat (List.length v))) as [F | F];
+    destruct (Z.leb_spec (p_sthr pol) (100 * cnt is_slow v / Z.of_nat (List.length v))) as [S | S];
+    cbn [orb]; repeat split; auto; try lia; try tauto.
+Qed.
+
+(** ** clause: maxWaitDurationInHalfOpenState reopens a stalled half-open breaker *)
+Lemma max_wait_reopens pol now s :
+  s_state s = HalfOpen -> p_perm pol <= s_trials s ->
+  (0 < p_maxwait pol -> p_maxwait pol < now - s_transit s ->
+     sp_acquire pol now s = (false, reopened now s)) /\
+  (p_maxwait pol <= 0 \/ now - s_transit s <= p_maxwait pol ->
+     sp_acquire pol now s = (false, s)).
+Proof.
+  intros H Ht. split; intros.
+  - now apply acq_half_reopen.
+  - now apply acq_half_reject.
+Qed.
+
+(** ** clause: results of calls admitted in an earlier state are ignored *)
+Lemma transit_cases pol now target s :
+  sp_transit pol now target s = s \/
+  (s_id (sp_transit pol now target s) = s_id s + 1 /\ s_state (sp_transit pol now target s) = target /\
+   target <> s_state s /\ s_transit (sp_transit pol now target s) = now).
+Proof.
+  unfold sp_transit. destruct (st_eqb target (s_state s)) eqn:E; [left; reflexivity|].
+  right. cbn [s_id s_state s_transit]. repeat split. intro C. subst target.
+  destruct (s_state s); discriminate.
+Qed.
+
+Definition unchanged (s s' : spec) : Prop :=
+  s_id s' = s_id s /\ s_state s' = s_state s /\ s_transit s' = s_transit s.
+Definition transited (now : Z) (s s' : spec) : Prop :=
+  s_id s' = s_id s + 1 /\ s_state s' <> s_state s /\ s_transit s' = now.
+
+Lemma step_id pol o s :
+  unchanged s (snd (sp_step pol o s)) \/ transited (op_now o) s (snd (sp_step pol o s)).
+Proof.
+  unfold unchanged, transited.
+  destruct o as [now | now id err dur]; cbn [sp_step op_now].
+  - destruct (s_state s) eqn:Es.
+    + rewrite closed_passes by exact Es. cbn. auto.
+    + destruct (Z.lt_ge_cases (s_trials s) (p_perm pol)) as [Hlt | Hge].
+      * rewrite acq_half_admit by assumption. cbn. auto.
+      * destruct (Z.lt_ge_cases 0 (p_maxwait pol)) as [M0 | M0];
+        [destruct (Z.lt_ge_cases (p_maxwait pol) (now - s_transit s)) as [M1 | M1]|].
+        -- rewrite acq_half_reopen by assumption. cbn. right. try rewrite Es. repeat split; congruence.
+        -- rewrite acq_half_reject by (auto; lia). cbn. auto.
+        -- rewrite acq_half_reject by (auto; lia). cbn. auto.
+    + destruct (Z.lt_ge_cases (now - s_transit s) (p_wait pol)) as [Hw | Hw].
+      * rewrite acq_open_wait by assumption. cbn. auto.
+      * rewrite acq_open_elapsed by assumption. cbn. right. try rewrite Es. repeat split; congruence.
+  - destruct (Z.eq_dec id (s_id s)) as [-> | N]; [|rewrite stale_ignored_local by exact N; cbn; auto].
+    destruct (Z.le_gt_cases (kind_size (s_kind s)) 0) as [K | K]; [rewrite rec_zero_size by exact K; cbn; auto|].
+    rewrite rec_current by lia. cbn [snd]. destruct (_ <? _); [cbn; auto|].
+    destruct (s_state s) eqn:Es; [destruct (trips pol _) | destruct (trips pol _) |]; cbn; auto;
+      right; repeat split; congruence.
+Qed.
+
+Lemma sp_id_mono pol : forall ops s, s_id s <= s_id (sp_final pol s ops).
+Proof.
+  induction ops as [|o t IH]; intro s; cbn [sp_final]; [lia|].
+  specialize (IH (snd (sp_step pol o s))).
+  destruct (step_id pol o s) as [(U & _) | (T & _)]; lia.
+Qed.
+
+(** an unchanged id means that no transition happened at all in between *)
+Lemma same_id_no_transition pol : forall ops s,
+  s_id (sp_final pol s ops) = s_id s ->
+  Forall (fun ob => snd (fst ob) = s_state s /\ snd ob = s_id s) (sp_run pol s ops) /\
+  s_state (sp_final pol s ops) = s_state s /\ s_transit (sp_final pol s ops) = s_transit s.
+Proof.
+  induction ops as [|o t IH]; intros s H; cbn [sp_final sp_run] in *; [auto|].
+  pose proof (sp_id_mono pol t (snd (sp_step pol o s))) as M.
+  destruct (step_id pol o s) as [(U1 & U2 & U3) | (T1 & _)]; [|lia].
+  assert (E : snd (fst (fst (sp_step pol o s))) = s_state (snd (sp_step pol o s)) /\
+              snd (fst (sp_step pol o s)) = s_id (snd (sp_step pol o s))).
+  { destruct o as [now | now id err dur]; cbn [sp_step].
+    - destruct (sp_acquire pol now s); auto.
+    - destruct (sp_record pol now id (classify pol err dur) s); auto. }
+  destruct (sp_step pol o s) as [ob s'] eqn:Est. cbn [fst snd] in *.
+  destruct (IH s') as (F & G1 & G2); [lia|].
+  rewrite U1, U2 in F. rewrite G1, G2, U2, U3. split; [|auto].
+  constructor; [|exact F]. destruct E as [E1 E2]. rewrite E1, E2. auto.
+Qed.
+
+Lemma stale_results_ignored pol : forall ops s now r,
+  (exists ob, In ob (sp_run pol s ops) /\ (snd (fst ob) <> s_state s \/ snd ob <> s_id s)) ->
+  sp_record pol now (s_id s) r (sp_final pol s ops) = (false, sp_final pol s ops).
+Proof.
+  intros ops s now r (ob & Hin & Hne).
+  apply stale_ignored_local. intro C. symmetry in C.
+  destruct (same_id_no_transition pol ops s C) as (F & _).
+  rewrite Forall_forall in F. specialize (F ob Hin). tauto.
+Qed.
+
+(** ** the wrapper and the pool mapping *)
+Lemma wrapper_one_record : forall h,
+  wrap_records h = [match h with HOk => false | _ => true end].
+Proof. intros []; reflexivity. Qed.
+
+Lemma wrapper_call_shape pol now h c :
+  let '(ok, c1) := cb_acquire pol now c in
+  wrap_call pol now h c =
+  if ok then (wrap_result h,
+              snd (cb_record pol now (c_id c1) (classify pol (match h with HOk => false | _ => true end) 0) c1))
+  else (WShort, c1).
+Proof.
+  unfold wrap_call. destruct (cb_acquire pol now c) as [ok c1].
+  destruct ok; [|reflexivity]. rewrite wrapper_one_record. reflexivity.
+Qed.
+
+Lemma short_circuit_503 pol now h c b :
+  fst (cb_acquire pol now c) = false ->
+  fst (wrap_call pol now h c) = WShort /\
+  snd (wrap_call pol now h c) = snd (cb_acquire pol now c) /\
+  pool_result (fst (wrap_call pol now h c)) b = (503, "shortCircuited"%string) /\
+  wrap_handler_runs (fst (wrap_call pol now h c)) = 0.
+Proof.
+  intro H. unfold wrap_call. destruct (cb_acquire pol now c) as [ok c1]. cbn [fst] in H. subst ok.
+  cbn. auto.
+Qed.
+
+Lemma admitted_not_short pol now h c :
+  fst (cb_acquire pol now c) = true ->
+  fst (wrap_call pol now h c) = wrap_result h /\ wrap_handler_runs (fst (wrap_call pol now h c)) = 1.
+Proof.
+  intro H. unfold wrap_call. destruct (cb_acquire pol now c) as [ok c1]. cbn [fst] in H. subst ok.
+  cbn [fst]. destruct h; auto.
 Qed.
